@@ -12,25 +12,35 @@ import tempfile
 from pathlib import Path
 
 from check import Result
+from vlib.shrink import ddmin
 
 META = {
     'level_text': 'Theorems for every chunking of the written text, every crash point, every single I/O fault with any partial write, '
                   'every history of set/save/writeInit/load/factory-reset actions: crash_atomic, fault_atomic (target = complete old or '
-                  'complete new snapshot, tmp removed), save_outcome, failed_save_retried, believed_on_disk (persistentData always equals '
-                  'what a restart would read), saved_when_done, roundtrip (load after save restores every persistent parameter under the '
-                  'codec law import(export v) = v), cfg_precedence, load_total / unusable_entry_removes_only_itself.  The model is tied to '
-                  'frappy/persistent.py by a correspondence run on real modules over all datatypes under fault injection; the Lean monitors '
-                  'judge every recorded directory snapshot, retry trial and restart.',
+                  'complete new snapshot, tmp removed), save_outcome, failed_save_retried, believed_on_disk and believed_on_disk_world '
+                  '(persistentData always equals what a restart would read - for the save machine and for the whole module machine), '
+                  'saved_when_done / save_leaves_current_file, startup_file_current, roundtrip (load after save restores every persistent '
+                  'parameter under the codec law import(export v) = v), cfg_precedence, reload_restores (loadParameters() in any state '
+                  'restores every usable stored value unless the write method refuses it), reload_from_this_run (start-up, any history, '
+                  'then loadParameters(): every persistent parameter ends with a value of this run - a value an earlier run stored never '
+                  'overrides what start-up decided from the configuration), reload_after_startup_keeps_values, load_total / '
+                  'unusable_entry_removes_only_itself.  The model is tied to frappy/persistent.py by a correspondence run on real modules '
+                  'over all datatypes under fault injection; the Lean monitors judge every recorded directory snapshot, retry trial, '
+                  'restart, and every loadParameters() of the histories and on damaged files.',
     'level_note': 'Durability is modelled at the granularity of Python-level file operations (open, each write, close, rename, remove) with '
                   'every write reaching the file at once and an atomic rename; the code issues no fsync, and power-loss reordering of data '
                   'and metadata is NOT modelled.  Saves are single-threaded in the model (two threads saving the same module concurrently '
                   'share one tmp file; not covered).  json, the datatypes and Python == are oracles of the model (tables recorded from the '
-                  'real functions).',
+                  'real functions).  The reload clauses (ReloadRestores, ReloadFromThisRun) extend the statement\'s loading / precedence '
+                  'clauses to loadParameters(); a parameter without usable stored entry is bound only by ReloadFromThisRun.',
     'trusted': [
         'durability granularity: Python file operations, write-through, atomic os.rename, no reordering (no fsync in the code; power loss not modelled)',
-        'json.dump/json.load, datatype import_value/export_value/validate are oracles; the codec law import(export v) = v is a hypothesis '
-        'of `roundtrip` and is tested on every generated value',
-        'json.load returns dictionaries with distinct keys (hypothesis of cfg_precedence)',
+        'json.dump/json.load, datatype import_value/export_value/validate are oracles; the laws assumed of them by roundtrip and the reload '
+        'theorems - import(export v) = v, and validate hands back unchanged (or refuses) a value an import produced - are tested on every '
+        'imported value of every case (law.* counters; a broken law fails the check)',
+        'json.load returns dictionaries with distinct keys (hypothesis of cfg_precedence and the reload theorems)',
+        'import respects Python == of decoded files (hypothesis of reload_from_this_run, used only when a save found nothing to write); '
+        'exercised through the monitors, not tested separately',
         'driver glue: Python == on decoded JSON is `pyEq` (True == 1, 1.0 == 1, exact decimal comparison)',
         'Module.__init__ (values, given flags, configured writes) is an input of the model (C10)',
         'an OSError while *reading* the file and a failing pathlib mkdir are outside the statement and not injected',
@@ -348,6 +358,18 @@ def gen_spec(rng, big):
     return {'params': params, 'cfg': cfg}
 
 
+def edit_cfg(rng, spec):
+    """the configuration of another run of the same module class: entries dropped, added, changed"""
+    cfg = {}
+    for p in spec['params']:
+        r = rng.random()
+        if p['name'] in spec['cfg'] and r < 0.3:
+            cfg[p['name']] = spec['cfg'][p['name']]
+        elif r < 0.6:
+            cfg[p['name']] = gen_val(rng, p['dt'])
+    return cfg
+
+
 _classes = {}
 
 
@@ -563,6 +585,32 @@ def restart(spec, target, tmp):
         bench.close()
 
 
+def reload_from(spec, content):
+    """a running module (started without file) finds `content` in its file when it calls loadParameters()"""
+    bench = Bench()
+    try:
+        m, exc = bench.create(spec)
+        if m is None:
+            return None
+        before = values_of(m)
+        bench.fs.set_state(content, None)
+        bench.fs.reset(None)
+        m.wlog = []
+        exc = None
+        try:
+            m.loadParameters()
+        except Exception as e:  # pylint: disable=broad-except
+            exc = type(e).__name__
+        except RecursionError:
+            exc = 'RecursionError'
+        rec = step_record(bench, m, exc)
+        rec['before'] = before
+        rec['module'] = m
+        return rec
+    finally:
+        bench.close()
+
+
 # ----------------------------------------------------------------------------------------
 # oracle tables for the Lean side
 # ----------------------------------------------------------------------------------------
@@ -670,6 +718,25 @@ class Tables:
                 except Exception:  # pylint: disable=broad-except
                     res = None
                 wval.append({'name': n, 'val': r, 'res': res})
+        # the laws the reload theorems assume of the datatypes, tested on every value an import produced:
+        # (codec) import(export v) = v; (write path) validate accepts v unchanged or refuses it
+        wv = {(e['name'], e['val']): e['res'] for e in wval}
+        ex = {(e['name'], e['val']): e['json'] for e in exp}
+        im = {(n, json.dumps(tr(j), sort_keys=True)): r for (n, _), (j, r) in self.imp.items()}
+        self.laws = {'codec.ok': 0, 'codec.broken': [], 'wval.ok': 0, 'wval.broken': []}
+        for (n, _), (_, r) in self.imp.items():
+            if r is None:
+                continue
+            if wv.get((n, r)) in (None, r):
+                self.laws['wval.ok'] += 1
+            else:
+                self.laws['wval.broken'].append([n, r, wv.get((n, r))])
+            if (n, r) in ex:
+                back = im.get((n, json.dumps(ex[(n, r)], sort_keys=True)), '<not imported>')
+                if back == r:
+                    self.laws['codec.ok'] += 1
+                else:
+                    self.laws['codec.broken'].append([n, r, back])
         return {
             'parse': [{'hex': h, 'dec': top(dec) if ok else None} for h, (ok, dec) in self.parse.items()],
             'ser': [{'dict': top(d), 'chunks': ch} for d, ch in self.ser.values()],
@@ -760,35 +827,29 @@ def nongiven_saved(spec, ref, values):
     return [[n, v] for n, v in values if ref['persistent'].get(n) and n not in given]
 
 
-def check_case(ctx, res, spec, case, quick_crash=3, kind='history'):
-    """run one history on the implementation, compare with the model, judge; appends to res"""
-    rng = ctx.rng
-    ref = restart(spec, None, None)
-    if ref.get('module') is None:
-        raise RuntimeError(f'reference module cannot be created: {ref["exc"]} {spec}')
-    impl = run_impl(spec, case)
+_laws = []   # law statistics of the tables built since the last call of `take_laws`
+
+
+def take_laws(res, full):
+    """moves the law statistics into the result; a broken law is a hypothesis of the theorems not met by the real datatypes"""
+    for lw in _laws:
+        res.count('law.codec.ok', lw['codec.ok'])
+        res.count('law.wval-idempotent.ok', lw['wval.ok'])
+        for kind in ('codec.broken', 'wval.broken'):
+            for b in lw[kind][:3]:
+                res.disagreements.append({'case': full, 'model': 'law ' + kind.split('.')[0] + ' assumed by the reload theorems',
+                                          'impl': b})
+    del _laws[:]
+
+
+def history_tables(spec, case, ref, impl):
+    """oracle tables (json, datatypes) covering every value and file content of one history"""
     steps = impl['steps']
-    res.evaluations += 1
-    full = {'kind': kind, 'spec': spec, 'case': case}
-    first = steps[0]
     tb = Tables(spec, ref)
     for n, v in ref['module'].parameters.items():
         tb.add_val(n, v.value)
     if case.get('file') is not None:
         tb.add_file(bytes.fromhex(case['file']))
-    if first['values'] is None:
-        # creation failed.  With a healthy file system that is the start-up clause; with an injected fault in the
-        # initial save the statement does not demand that creation succeeds.
-        if case.get('fault') is None:
-            res.violations.append({'sig': 'C17:startup-aborted:' + str(first['exc']),
-                                   'what': f'module creation raised {first["exc"]} with stored file content '
-                                           f'{bytes.fromhex(case["file"] or "")[:60]!r}', 'case': full})
-        res.count('start.aborted')
-        return
-    m = impl['module']
-    for rec in steps:
-        for n, p in zip([x[0] for x in rec['values']], m.parameters.values()):
-            pass
     # values seen (python objects are needed for the oracle tables): re-derive from reprs is impossible, so collect live
     for p in spec['params']:
         dt = tb.dts[p['name']]
@@ -808,6 +869,131 @@ def check_case(ctx, res, spec, case, quick_crash=3, kind='history'):
         tb.add_data(d)
     # datas of intermediate value combinations cannot be enumerated in advance: add what the closure found
     tables = tb.close()
+    _laws.append(tb.laws)
+    return tables
+
+
+def reload_requests(spec, case, ref, impl, tables):
+    """-> [(step index, request)] for every loadParameters() of the history"""
+    steps = impl['steps']
+    return [(i, reload_request(ref, rec['pre'][0], [r['values'] for r in steps[:i]], rec['values'], tables))
+            for i, rec in enumerate(steps) if i > 0 and case['acts'][i - 1]['a'] == 'load']
+
+
+_shrunk = [0]
+
+
+def reload_findings(spec, case, kind, steps, verdicts):
+    """violation records for the reloads the Lean monitors rejected; verdicts = [(step index, answer of judge_reload)]"""
+    out = []
+    for i, a in verdicts:
+        full = {'kind': kind, 'spec': spec, 'case': case, 'where': ['step', i]}
+        now = dict(map(tuple, steps[i]['values']))
+        if a['thisrun']:
+            n = a['thisrun'][0]
+            held = list(dict.fromkeys(dict(map(tuple, r['values']))[n] for r in steps[:i]))
+            out.append({'sig': 'C17:reload-resurrects-overridden-value',
+                        'what': f'loadParameters() at step {i} gave {a["thisrun"]} a value the parameter never had in this run '
+                                f'({n} = {now[n]}; since start-up it held {held}; given in the configuration: {sorted(spec["cfg"])}): '
+                                f'a value stored by an earlier run overrides what start-up decided', 'case': full})
+        if a['restores']:
+            out.append({'sig': 'C17:reload-not-restored',
+                        'what': f'loadParameters() at step {i} did not restore {a["restores"]} to the usable stored value',
+                        'case': full})
+    return out
+
+
+def shrink_reload(ctx, spec, case, ref, key):
+    """smallest sub-history for which the Lean monitor still rejects a reload under the same clause (`key`)"""
+    def fails(acts):
+        c = dict(case, acts=acts)
+        impl = run_impl(spec, c, trials=False)
+        if impl['steps'][0]['values'] is None:
+            return False
+        rq = reload_requests(spec, c, ref, impl, history_tables(spec, c, ref, impl))
+        return any(a.get(key) for a in ctx.driver.batch([r for _, r in rq])) if rq else False
+    small = ddmin(case['acts'], fails, max_tests=60)
+    del _laws[:]
+    return dict(case, acts=small)
+
+
+def judge_failed_startup(ctx, res, spec, case, ref, first, full):
+    """the save at the end of start-up hit the injected fault and module creation raised: that save is a save like any
+    other (and the only one that can meet a missing file) - the file must be the complete old or the complete new
+    snapshot at every moment, nothing may be left behind, and the next start-up must work"""
+    twin_case = dict(case, fault=None, acts=[])
+    twin_impl = run_impl(spec, twin_case, trials=False)
+    twin = twin_impl['steps'][0]
+    if twin['values'] is None or not twin['evs']:
+        return
+    new = new_bytes(twin['data'])
+    # correspondence of the failed call: operations, fault mark, "raised", both files
+    if ctx.model_ok:
+        tables = history_tables(spec, twin_case, ref, twin_impl)
+        del _laws[:]
+        mo = ctx.driver.batch([model_request(spec, dict(case, acts=[]), ref, {'steps': [first]}, tables)])[0]
+        if 'driver_error' in mo:
+            raise RuntimeError(f'driver error: {mo}')
+        keys = ('evs', 'raised', 'target', 'tmp')
+        got, want = obs_step(first), mo['steps'][0]
+        if any(got[k] != want[k] for k in keys):
+            res.disagreements.append({'case': full, 'first_bad_step': 0, 'model': {k: want[k] for k in keys},
+                                      'impl': {k: got[k] for k in keys}})
+    reqs = [{'p': 'C17', 'k': 'judge_snapshots', 'old': hexo(first['pre'][0]), 'new': new.hex(),
+             'snaps': [hexo(s[0]) for s in first['snaps']]},
+            {'p': 'C17', 'k': 'judge_litter', 'target': TARGET, 'listing': first['listing']}]
+    again = restart(spec, first['target'], first['tmp'])
+    if again['values'] is None:
+        res.violations.append({'sig': 'C17:startup-aborted-after-crash:' + str(again['exc']),
+                               'what': f'after a start-up whose save failed ({first["exc"]}), the next module creation raised {again["exc"]}',
+                               'case': full})
+    else:
+        old = restart(spec, first['pre'][0], None)
+        reqs.append({'p': 'C17', 'k': 'judge_restore',
+                     'saved': [nongiven_saved(spec, ref, old['values'] or []), nongiven_saved(spec, ref, twin['values'])],
+                     'restored': again['values']})
+    ans = ctx.driver.batch(reqs)
+    res.traces += len(reqs)
+    res.count('start.failed-save-judged')
+    k = next((i for i, e in enumerate(first['evs']) if e[-1] == 'FAULT'), None)
+    res.count('start.fault.at.' + (first['evs'][k][0] if k is not None else 'unreached'))
+    if ans[0]['bad'] is not None:
+        snap = first['snaps'][ans[0]['bad']][0]
+        res.violations.append({'sig': 'C17:file-empty' if snap == b'' else 'C17:file-partial-or-foreign',
+                               'what': f'after operation {ans[0]["bad"]} ({first["evs"][ans[0]["bad"]][:2]}) of the save of a start-up that failed '
+                                       f'the persistent file holds neither the old nor the new snapshot: {snap[:80]!r}', 'case': full})
+    if not ans[1]['ok']:
+        res.violations.append({'sig': 'C17:tmp-left-behind',
+                               'what': f'after the failed start-up the directory holds {first["listing"]}', 'case': full})
+    if len(ans) > 2 and not ans[2]['ok']:
+        res.violations.append({'sig': 'C17:crash-restore-mixed',
+                               'what': 'values restored after a failed start-up are neither the old nor the new set', 'case': full})
+
+
+def check_case(ctx, res, spec, case, quick_crash=3, kind='history'):
+    """run one history on the implementation, compare with the model, judge; appends to res"""
+    rng = ctx.rng
+    ref = restart(spec, None, None)
+    if ref.get('module') is None:
+        raise RuntimeError(f'reference module cannot be created: {ref["exc"]} {spec}')
+    impl = run_impl(spec, case)
+    steps = impl['steps']
+    res.evaluations += 1
+    full = {'kind': kind, 'spec': spec, 'case': case}
+    first = steps[0]
+    if first['values'] is None:
+        # creation failed.  With a healthy file system that is the start-up clause; with an injected fault in the
+        # initial save the statement does not demand that creation succeeds.
+        if case.get('fault') is None:
+            res.violations.append({'sig': 'C17:startup-aborted:' + str(first['exc']),
+                                   'what': f'module creation raised {first["exc"]} with stored file content '
+                                           f'{bytes.fromhex(case["file"] or "")[:60]!r}', 'case': full})
+        else:
+            judge_failed_startup(ctx, res, spec, case, ref, first, full)
+        res.count('start.aborted')
+        return
+    tables = history_tables(spec, case, ref, impl)
+    take_laws(res, full)
 
     reqs, tags = [], []
     reqs.append(model_request(spec, case, ref, impl, tables))
@@ -844,8 +1030,21 @@ def check_case(ctx, res, spec, case, quick_crash=3, kind='history'):
             r = restart(spec, target, tmp)
             cache[key] = r
         return cache[key]
+    flags = {p['name']: p['flag'] for p in spec['params']}
     for i, rec in enumerate(steps):
         if not rec['evs']:
+            # a step that is a save by the documented triggers (saveParameters(), or a change of an `auto` parameter, while
+            # no configured write is pending), was not disturbed and returned normally, but touched no file: the file
+            # must hold the values already ("loading after saving restores ...")
+            act = case['acts'][i - 1] if i > 0 else None
+            if (act is not None and act.get('fault') is None and not rec['raised'] and not steps[i - 1]['writeDict']
+                    and (act['a'] == 'save' or (act['a'] == 'set' and flags.get(act['name']) == 'auto'))):
+                r = restarted(rec['target'], rec['tmp'])
+                reqs.append({'p': 'C17', 'k': 'judge_restore', 'saved': [nongiven_saved(spec, ref, rec['values'])],
+                             'restored': r['values'] if r['values'] is not None else []})
+                tags.append(('roundtrip', ('step', i)))
+                res.traces += 1
+                res.count('roundtrip.after-silent-save')
             continue
         cur = nongiven_saved(spec, ref, rec['values'])
         if rec['target'] is not None and rec['target'] == new_bytes(rec['data']):
@@ -870,6 +1069,12 @@ def check_case(ctx, res, spec, case, quick_crash=3, kind='history'):
             tags.append(('crash-restore', ('step', i)))
             res.traces += 1
             res.count('crash.restart')
+    # ---- reloads (loadParameters() in the running module): restored values, and where they come from
+    for i, rq in reload_requests(spec, case, ref, impl, tables):
+        reqs.append(rq)
+        tags.append(('reload', ('step', i)))
+        res.traces += 1
+        res.count('reload.after-start' if i == 1 else 'reload.later')
     # ---- start-up precedence of the first creation
     reqs.append(start_request(spec, ref, case.get('file'), first['values'], tables))
     tags.append(('start', None))
@@ -887,6 +1092,7 @@ def check_case(ctx, res, spec, case, quick_crash=3, kind='history'):
                                   'model': model_steps[bad] if bad < len(model_steps) else None,
                                   'impl': impl_obs[bad] if bad < len(impl_obs) else None})
     # ---- verdicts of the monitors
+    bad_reloads = []
     for (tag, where), a in zip(tags[1:], answers[1:]):
         if tag == 'snap' and a['bad'] is not None:
             rec = steps[where[1]] if where[0] == 'step' else impl['trials'][where[1]]['first']
@@ -915,6 +1121,21 @@ def check_case(ctx, res, spec, case, quick_crash=3, kind='history'):
         elif tag == 'start' and a['bad']:
             res.violations.append({'sig': 'C17:startup-precedence', 'what': f'start-up values of {a["bad"]} are not cfg > stored > default',
                                    'case': full})
+        elif tag == 'reload' and (a['thisrun'] or a['restores']):
+            bad_reloads.append((where[1], a))
+    if bad_reloads:
+        small, sm_steps, verdicts = case, steps, bad_reloads
+        if _shrunk[0] < 3:
+            _shrunk[0] += 1
+            key = 'thisrun' if any(a['thisrun'] for _, a in bad_reloads) else 'restores'
+            cand = shrink_reload(ctx, spec, case, ref, key)
+            impl2 = run_impl(spec, cand, trials=False)
+            rq = reload_requests(spec, cand, ref, impl2, history_tables(spec, cand, ref, impl2))
+            v2 = [(i, a) for (i, _), a in zip(rq, ctx.driver.batch([r for _, r in rq])) if a.get('thisrun') or a.get('restores')]
+            del _laws[:]
+            if v2:
+                small, sm_steps, verdicts = cand, impl2['steps'], v2
+        res.violations.extend(reload_findings(spec, small, kind, sm_steps, verdicts))
     # ---- statistics
     nsaves = sum(1 for r in steps if r['evs'])
     faulted = sum(1 for r in steps if any(e[-1] == 'FAULT' for e in r['evs']))
@@ -930,11 +1151,37 @@ def check_case(ctx, res, spec, case, quick_crash=3, kind='history'):
     return impl
 
 
+def slim(tables, filehex):
+    """the part of the oracle tables the judges of one file content look at (plumbing: a request carries the entries for its
+    own file instead of those of the whole case; an entry missing by mistake yields the marked value that fails the judge)"""
+    parse = [e for e in tables['parse'] if e['hex'] == filehex]
+    wanted = set()
+    for e in parse:
+        d = e['dec']
+        if d and d.get('kind') == 'obj':
+            for k, j in d['pairs']:
+                wanted.add((k, json.dumps(j, sort_keys=True)))
+    imp = [e for e in tables['imp'] if (e['name'], json.dumps(e['json'], sort_keys=True)) in wanted]
+    vals = {(e['name'], e['val']) for e in imp if e['val'] is not None}
+    wval = [e for e in tables['wval'] if (e['name'], e['val']) in vals]
+    return {'parse': parse, 'ser': [], 'imp': imp, 'exp': [], 'wval': wval}
+
+
+def reload_request(ref, file, history_values, actual_values, tables):
+    """one call of loadParameters(): `file` = content of the file when it was called, `history_values` = the value
+    lists at the end of start-up and after every action before the call"""
+    actual = dict(map(tuple, actual_values))
+    hist = [dict(map(tuple, v)) for v in history_values]
+    obs = [{'name': n, 'persistent': ref['persistent'][n], 'hasWrite': ref['hasWrite'][n], 'before': hist[-1][n],
+            'held': [h[n] for h in hist], 'actual': actual[n]} for n, _ in ref['values']]
+    return {'p': 'C17', 'k': 'judge_reload', 'tables': slim(tables, hexo(file)), 'file': hexo(file), 'obs': obs}
+
+
 def start_request(spec, ref, filehex, actual_values, tables):
     given = set(spec['cfg'])
     obs = [{'name': n, 'persistent': ref['persistent'][n], 'given': n in given, 'init': v,
             'actual': dict(map(tuple, actual_values))[n]} for n, v in ref['values']]
-    return {'p': 'C17', 'k': 'judge_start', 'tables': tables, 'file': filehex, 'obs': obs}
+    return {'p': 'C17', 'k': 'judge_start', 'tables': slim(tables, filehex), 'file': filehex, 'obs': obs}
 
 
 # ----------------------------------------------------------------------------------------
@@ -1013,14 +1260,23 @@ def check_corruptions(ctx, res, spec, big):
     results = []
     for label, content in cors:
         r = restart(spec, content, None)
-        results.append((label, content, r))
+        # the same content met by loadParameters() of a running module
+        rl = reload_from(spec, content) if (big or label.split(':')[0] not in ('truncate', 'bitflip') or rng.random() < 0.3) else None
+        results.append((label, content, r, rl))
         tb.add_file(content)
-        if r['values'] is not None:
-            for n, p in r['module'].parameters.items():
-                tb.add_val(n, p.value)
+        for x in (r, rl):
+            if x is not None and x['values'] is not None:
+                for n, p in x['module'].parameters.items():
+                    tb.add_val(n, p.value)
     tables = tb.close()
     reqs, meta = [], []
-    for label, content, r in results:
+    for label, content, r, rl in results:
+        if rl is not None:
+            # only the restoring clause applies: the content is foreign to this run by construction
+            reqs.append(reload_request(ref, content, [rl['before']], rl['values'], tables))
+            meta.append(('reload', {'kind': 'corrupt', 'spec': spec, 'content': content.hex(), 'label': label}, rl))
+            res.traces += 1
+            res.count('corrupt.reload' + ('.raised' if rl['exc'] else ''))
         res.evaluations += 1
         res.count('corrupt.' + label.split(':')[0])
         full = {'kind': 'corrupt', 'spec': spec, 'content': content.hex(), 'label': label}
@@ -1052,6 +1308,10 @@ def check_corruptions(ctx, res, spec, big):
             res.violations.append({'sig': 'C17:startup-precedence',
                                    'what': f'start-up from a corrupted file ({full["label"]}): values of {a["bad"]} are not '
                                            f'cfg > usable stored > default', 'case': full})
+        elif tag == 'reload' and a['restores']:
+            res.violations.append({'sig': 'C17:reload-not-restored',
+                                   'what': f'loadParameters() on a damaged file ({full["label"]}) did not restore {a["restores"]} to the '
+                                           f'usable stored value' + (f' (it raised {r["exc"]})' if r['exc'] else ''), 'case': full})
         elif tag == 'snap' and a['bad'] is not None:
             res.violations.append({'sig': 'C17:file-partial-or-foreign', 'what': 'start-up save left a partial file', 'case': full})
         elif tag == 'litter' and not a['ok']:
@@ -1092,10 +1352,22 @@ def check_single_corruption(ctx, res, c):
     for n, p in list(ref['module'].parameters.items()) + list(r['module'].parameters.items()):
         tb.add_val(n, p.value)
     tb.add_file(content)
-    a = ctx.driver.batch([start_request(spec, ref, c['content'], r['values'], tb.close())])[0]
-    res.traces += 1
-    if a.get('bad'):
-        res.violations.append({'sig': 'C17:startup-precedence', 'what': f'values of {a["bad"]} are not cfg > usable stored > default', 'case': c})
+    rl = reload_from(spec, content)
+    if rl is not None and rl['values'] is not None:
+        for n, p in rl['module'].parameters.items():
+            tb.add_val(n, p.value)
+    tables = tb.close()
+    reqs = [start_request(spec, ref, c['content'], r['values'], tables)]
+    if rl is not None:
+        reqs.append(reload_request(ref, content, [rl['before']], rl['values'], tables))
+    ans = ctx.driver.batch(reqs)
+    res.traces += len(reqs)
+    if ans[0].get('bad'):
+        res.violations.append({'sig': 'C17:startup-precedence', 'what': f'values of {ans[0]["bad"]} are not cfg > usable stored > default', 'case': c})
+    if rl is not None and ans[1].get('restores'):
+        res.violations.append({'sig': 'C17:reload-not-restored',
+                               'what': f'loadParameters() on a damaged file did not restore {ans[1]["restores"]} to the usable stored value'
+                                       + (f' (it raised {rl["exc"]})' if rl['exc'] else ''), 'case': c})
     return r
 
 
@@ -1107,7 +1379,11 @@ def run(ctx):
                 '(writes also with a partial effect) each followed by a healthy save, a directory snapshot after EVERY operation judged by '
                 'the Lean monitor, restarts from crash snapshots; non-trivial = at least two saves that touched the disk and a fork of fault '
                 'trials.  corruptions: truncation at every byte (files <= 400 B), bit flips, type changes, unknown/missing keys, bad '
-                'entries; non-trivial = readable dictionary that changes some restored value')
+                'entries, each met by a restart and by loadParameters() of a running module (quick tier: 30 % of the truncations and bit flips '
+                'for the latter); non-trivial = readable dictionary that '
+                'changes some restored value.  40 % of the histories start from the file of an earlier run, 60 % of those written under '
+                'an edited configuration, half of them with loadParameters() right after start-up; every loadParameters() is judged '
+                '(restored values, provenance of the values)')
     big = ctx.tier == 'thorough' or ctx.escalated
     rng = ctx.rng
     for c in load_corpus(ctx):
@@ -1115,14 +1391,29 @@ def run(ctx):
     for _ in range(ctx.budget(110, 400)):
         spec = gen_spec(rng, big)
         case = gen_case(rng, spec, big)
-        if rng.random() < 0.3:
-            # start from a file written for (possibly) other values, or a damaged one
-            prev = run_impl(spec, gen_case(rng, spec, False), trials=False)
+        if rng.random() < 0.4:
+            # start from a file written by an earlier run for (possibly) other values, or a damaged one; the configuration
+            # may have been edited between the two runs (values added, removed, changed)
+            prev_spec = spec
+            if rng.random() < 0.6:
+                prev_spec = dict(spec, cfg=edit_cfg(rng, spec))
+                res.count('file.from-run-with-other-cfg')
+            else:
+                res.count('file.from-run-with-same-cfg')
+            prev = run_impl(prev_spec, gen_case(rng, prev_spec, False), trials=False)
             t = prev['steps'][-1]['target']
             if t is not None:
                 if rng.random() < 0.3 and len(t) > 2:
                     t = t[:rng.randrange(len(t))]
                 case['file'] = t.hex()
+                if rng.random() < 0.5:
+                    # the documented reaction to a power cycle found at the first poll: reload right after start-up
+                    case['acts'].insert(rng.choice([0, 0, 1]), {'a': 'load'})
+        if case.get('fault') is not None:
+            # a fault in the save of start-up: aim at every kind of operation (open, first / last write, close, rename, remove)
+            n = len(run_impl(spec, dict(case, fault=None, acts=[]), trials=False)['steps'][0]['evs'])
+            if n:
+                case['fault']['idx'] = rng.choice([0, 1, n - 4, n - 3, n - 2, n - 1, rng.randrange(n)]) % n
         check_case(ctx, res, spec, case, quick_crash=None if big else 4)
     for _ in range(ctx.budget(12, 40)):
         check_corruptions(ctx, res, gen_spec(rng, False), big)
